@@ -72,7 +72,9 @@ func gcsWorkerMain() {
 			t0 := time.Now()
 			res, err := parse.New(string(src)).Parse()
 			el := time.Since(t0)
-			if err != nil || res == nil {
+			if err == nil && (res == nil || res.Program == nil) {
+				fmt.Fprintf(out, "neither\n") // no program and no error either
+			} else if err != nil || res == nil {
 				fmt.Fprintf(out, "perr\n")
 			} else {
 				fmt.Fprintf(out, "ast s=%s\n", sexprBlock(res.Program))
@@ -506,6 +508,10 @@ func (g gcsComp) Gen(r *rand.Rand, tier string, n int) []*wire.Case {
 	// a stray terminator in every statement position (top level, block, case body, default body, after a nested block)
 	add("d-stray-terminators", ";", "a(); ;", "{ a(); ; }", "switch x { case 1: a(); ; }", "switch x { case 1: ; }", "switch { default: ; }", "switch x { case 1: if y { a(); }; case 2: b(); }",
 		"switch x { case 1: a(); default: b(); ; }", "if x { ; }", "while x { a(); ; }", "for ; ; { ; }", "fn f() { ; } ", "switch x { ; }", "switch x { case 1: { ; } }", "switch x { case 1: a();; break; }")
+	// parameter names are per function: a nested function may name a parameter like an enclosing one; within one list they are distinct
+	add("d-nested-fn-params", "fn f(a, b) { let g = fn(a) { return a; }; return g(b); }", "fn f(x) { fn g(x) { return x; } return g(x); }", "fn f(a) { return fn(b) { return fn(a) { return a; }; }; }",
+		"fn f(a) { fn g(a) { return a; } fn h(a) { return a; } return g(h(a)); }", "let k = fn(p, q) { return fn(q, p) { return p; }; };", "fn f(a) { return 1; } fn g(a) { return 2; }",
+		"fn f(a, b) { let g = fn(c, c) { return c; }; return g(b, a); }", "fn f(a) { fn g(b, a, b) { return a; } return g(1, 2, 3); }", "fn f(a) { if a { fn g(a) { return a; } return g(a); } return fn(a) { return a; }(a); }")
 	add("d-ops", "= == > >= < <= <> != ! && || & |", "a&&b||c", "a<>b", "!a", "!=")
 	add("d-missing-parts", "let x = (1 + 2;", "let x = ; ;", "let x = ;", "let = 1;", "let x 1;", "x = ;", "if x { y = 1; ", "if { }", "while { }", "fn (a) { }", "fn f(a { }", "fn f(a,) { }",
 		"switch x { case : y; }", "switch x { y; }", "for let i = 0 i < 3 { }", "f(1,;", "f(1 2);", "[1, 2", "[a = ]", "return ;", "let x = 1 + ;", "let x = * 2;", "x = (;", "let x = ();")
